@@ -61,6 +61,8 @@ struct Slow {
     pre_delay: u64,
     posts: u32,
     gap: u64,
+    /// how long the start routine lingers after its last post effect before returning (ms)
+    linger: u64,
     log: SharedLog,
 }
 
@@ -81,6 +83,9 @@ impl Protocol for Slow {
             } else {
                 tokio::task::yield_now().await;
             }
+        }
+        if self.linger > 0 {
+            sleep(Duration::from_millis(self.linger)).await;
         }
         Ok(())
     }
@@ -135,7 +140,8 @@ impl Protocol for Requester {
 #[derive(Clone, Debug, Default)]
 struct Scenario {
     timeout: Option<u64>,
-    slows: Vec<(u64, u32, u64)>,      // pre_delay, posts, gap
+    slows: Vec<(u64, u32, u64, u64)>, // pre_delay, posts, gap, linger
+    direct: bool,                     // timeout given to run_internet directly (no outer watchdog)
     reqs: Vec<(u64, Option<u32>)>,    // at, Some(n)=Status(n) / None=Exited
     builtin_pair: bool,               // Udp/Ipv4/Pci + SendMessage -> Capture
     forward_arp: bool,                // Forward on a machine with Arp and a MAC-less route
@@ -152,15 +158,16 @@ fn status_str(s: &ExitStatus) -> String {
 impl Scenario {
     fn to_line(&self) -> String {
         let t = self.timeout.map(|d| d.to_string()).unwrap_or("-".into());
-        let sl: Vec<String> = self.slows.iter().map(|(d, p, g)| format!("{}:{}:{}", d, p, g)).collect();
+        let sl: Vec<String> = self.slows.iter().map(|(d, p, g, l)| if *l > 0 { format!("{}:{}:{}:{}", d, p, g, l) } else { format!("{}:{}:{}", d, p, g) }).collect();
         let rq: Vec<String> = self
             .reqs
             .iter()
             .map(|(a, s)| format!("{}:{}", a, s.map(|n| format!("s{}", n)).unwrap_or("exited".into())))
             .collect();
         format!(
-            "scn timeout={} slows={} reqs={} builtin={} forward={}",
+            "scn timeout={}{} slows={} reqs={} builtin={} forward={}",
             t,
+            if self.direct { " direct=1" } else { "" },
             if sl.is_empty() { "-".into() } else { sl.join(",") },
             if rq.is_empty() { "-".into() } else { rq.join(",") },
             self.builtin_pair as u8,
@@ -176,7 +183,8 @@ impl Scenario {
                 "slows" if v != "-" => {
                     for x in v.split(',') {
                         let p: Vec<&str> = x.split(':').collect();
-                        s.slows.push((p[0].parse().ok()?, p[1].parse().ok()?, p[2].parse().ok()?));
+                        let linger = if p.len() > 3 { p[3].parse().ok()? } else { 0 };
+                        s.slows.push((p[0].parse().ok()?, p[1].parse().ok()?, p[2].parse().ok()?, linger));
                     }
                 }
                 "reqs" if v != "-" => {
@@ -187,6 +195,7 @@ impl Scenario {
                     }
                 }
                 "builtin" => s.builtin_pair = v == "1",
+                "direct" => s.direct = v == "1",
                 "forward" => s.forward_arp = v == "1",
                 _ => {}
             }
@@ -228,10 +237,10 @@ fn run_scenario_inner(sc: &Scenario) -> Outcome {
             })));
         }
         let mut machines: Vec<Arc<Machine>> = vec![];
-        for (i, (d, p, g)) in sc.slows.iter().enumerate() {
+        for (i, (d, p, g, l)) in sc.slows.iter().enumerate() {
             machines.push(new_machine_arc![
                 Pci::new([network.clone()]),
-                Slow { id: i, pre_delay: *d, posts: *p, gap: *g, log: log.clone() },
+                Slow { id: i, pre_delay: *d, posts: *p, gap: *g, linger: *l, log: log.clone() },
                 Sink { log: log.clone() },
             ]);
         }
@@ -283,6 +292,7 @@ fn run_scenario_inner(sc: &Scenario) -> Outcome {
         log.lock().unwrap().t0 = Instant::now();
         let t0 = Instant::now();
         let status = match sc.timeout {
+            Some(d) if sc.direct => run_internet(&machines, Some(Duration::from_millis(d))).await,
             Some(d) => run_internet_with_timeout(&machines, Duration::from_millis(d)).await,
             None => run_internet(&machines, None).await,
         };
@@ -298,7 +308,9 @@ fn gen(rng: &mut Rng) -> Scenario {
     let kind = rng.below(100);
     let n_slow = if kind < 8 { 0 } else { rng.range(1, 5) as usize };
     for _ in 0..n_slow {
-        s.slows.push((*rng.pick(&[0u64, 0, 1, 5, 40, 300, 2500]), rng.below(4) as u32, *rng.pick(&[0u64, 0, 1, 7])));
+        // some start routines linger after their last effect (staggered), some never return
+        let linger = *rng.pick(&[0u64, 0, 0, 0, 150, 700, 1300, 2200, 4000, 1_000_000_000]);
+        s.slows.push((*rng.pick(&[0u64, 0, 1, 5, 40, 300, 2500]), rng.below(4) as u32, *rng.pick(&[0u64, 0, 1, 7]), linger));
     }
     let max_pre = s.slows.iter().map(|x| x.0).max().unwrap_or(0);
     let n_req = match rng.below(10) {
@@ -325,6 +337,7 @@ fn gen(rng: &mut Rng) -> Scenario {
         s.timeout = Some(d);
     }
     s.builtin_pair = rng.chance(1, 3);
+    s.direct = s.timeout.is_some() && rng.chance(1, 3);
     s
 }
 
@@ -377,7 +390,7 @@ fn exec(line: &str, out: &mut Out) {
         out.fail(&format!("{} in `{}`", e, line), ident);
     }
     if n_slow > 0 {
-        let prog: Vec<String> = sc.slows.iter().map(|(_, p, _)| format!("1:{}", p)).collect();
+        let prog: Vec<String> = sc.slows.iter().map(|(_, p, _, _)| format!("1:{}", p)).collect();
         let sch: Vec<String> = sched.iter().map(|x| x.to_string()).collect();
         out.line(
             &format!("barrier {} {} {}", n_slow, prog.join(","), if sch.is_empty() { "-".into() } else { sch.join(",") }),
@@ -406,7 +419,7 @@ fn exec(line: &str, out: &mut Out) {
     let mut all = rq.clone();
     all.extend(planned.iter().map(|(t, s)| format!("{}:{}", t, s)));
     out.line(
-        &format!("status {} {}", sc.timeout.map(|d| d.to_string()).unwrap_or("-".into()), if all.is_empty() { "-".into() } else { all.join(",") }),
+        &format!("{} {} {}", if sc.direct { "statusd" } else { "status" }, sc.timeout.map(|d| d.to_string()).unwrap_or("-".into()), if all.is_empty() { "-".into() } else { all.join(",") }),
         &format!("ret {} {}", o.elapsed, status_str(&o.status)),
     );
     // oracle: first request before the timeout wins, else TimedOut; bounded return time
